@@ -251,12 +251,6 @@ example : (match mkMap {} [exSpec, { toks := [.slash, .lit "other".toList, .slas
        | _ => false)
     | none => false) = true := by decide +kernel
 
-theorem bindRule_spec {cfg : MapCfg} {i : Nat} {sp : RuleSpec} {r : Rule} (h : bindRule cfg i sp = some r) : r.spec = sp := by
-  simp only [bindRule] at h
-  split at h
-  · cases h; rfl
-  · cases h
-
 /-- **match_build_url_partial.** `match_build_partial` on the full URL text `MapAdapter.build` returns.
 Whatever form `build` chooses — relative (`script_root + path[?query]`) or external
 (`[scheme:]//host + script_root + path[?query]`, forced or because the rule lives on another subdomain) —
